@@ -83,23 +83,23 @@ def wordTok (n : Nat) (bits : List Bool) : Tok :=
 
 /-- the expression part of a rendered line (after `name := `) -/
 def exprChars : Expr → List Char
-  | .iden => "iden".toList | .unit => "unit".toList | .witness => "witness".toList
-  | .injl c => "injl ".toList ++ c | .injr c => "injr ".toList ++ c
-  | .take c => "take ".toList ++ c | .drop c => "drop ".toList ++ c
-  | .comp a b => "comp ".toList ++ a ++ ' ' :: b
-  | .case a b => "case ".toList ++ a ++ ' ' :: b
-  | .pair a b => "pair ".toList ++ a ++ ' ' :: b
-  | .assertl a h => "assertl ".toList ++ a ++ ' ' :: '#' :: hexText h
-  | .assertr h b => "assertr #".toList ++ hexText h ++ ' ' :: b
-  | .disconnect a hole => "disconnect ".toList ++ a ++ ' ' :: '?' :: hole
-  | .fail e => "fail ".toList ++ failPrefix ++ hexText e
-  | .jet n => "jet_".toList ++ n
-  | .word n bits => "const ".toList ++ wordChars n bits
+  | .iden => Kw.iden.text | .unit => Kw.unit.text | .witness => Kw.witness.text
+  | .injl c => Kw.injl.text ++ ' ' :: c | .injr c => Kw.injr.text ++ ' ' :: c
+  | .take c => Kw.take.text ++ ' ' :: c | .drop c => Kw.drop.text ++ ' ' :: c
+  | .comp a b => Kw.comp.text ++ ' ' :: (a ++ ' ' :: b)
+  | .case a b => Kw.case.text ++ ' ' :: (a ++ ' ' :: b)
+  | .pair a b => Kw.pair.text ++ ' ' :: (a ++ ' ' :: b)
+  | .assertl a h => Kw.assertl.text ++ ' ' :: (a ++ ' ' :: '#' :: hexText h)
+  | .assertr h b => Kw.assertr.text ++ ' ' :: ('#' :: hexText h ++ ' ' :: b)
+  | .disconnect a hole => Kw.disconnect.text ++ ' ' :: (a ++ ' ' :: '?' :: hole)
+  | .fail e => Kw.fail.text ++ ' ' :: (failPrefix ++ hexText e)
+  | .jet n => 'j' :: 'e' :: 't' :: '_' :: n
+  | .word n bits => Kw.const.text ++ ' ' :: wordChars n bits
 
 /-- one rendered line without padding: `name := expr : A -> B` -/
 def stmtChars (s : Stmt) : List Char :=
-  s.name ++ " := ".toList ++ exprChars s.expr ++ " : ".toList ++ tyChars true s.src ++
-    " -> ".toList ++ tyChars true s.tgt
+  s.name ++ ' ' :: ':' :: '=' :: ' ' :: (exprChars s.expr ++ ' ' :: ':' :: ' ' :: (tyChars true s.src ++
+    ' ' :: '-' :: '>' :: ' ' :: tyChars true s.tgt))
 
 /-- the rendered statements, one per line -/
 def textChars : List Stmt → List Char
